@@ -97,6 +97,8 @@ def shard_fixed(variant, tier):
             ops += ["hnew s0 %s" % " ".join(kind), "update s0 %s" % P(k, 0, n), "fin s0"]
             exp += ["-", "-", d]
             cases.append((ops, exp, {"nt": n > 0}))
+    # the advertised parameters of the algorithm (digest bits, block bytes) are the standard's
+    cases.append((["hconsts %s" % variant], ["%d.%d" % (8 * D, B)], {"nt": True}))
     ck.run(cases, nontrivial=_nontrivial)
     ck.stats.states = len(cases) + 1
     return ck.stats
